@@ -365,6 +365,104 @@ def run_case(ctx, k):
         h.close()
 
 
+def race_threaded(ctx, k):
+    """Threaded server: an event arrives while its client's disconnect is in
+    progress (the disconnect handler, running in another thread, is blocked):
+    the client is no longer connected, so the event must be neither handled
+    nor acknowledged; an event that arrives before the disconnect begins is
+    handled and acknowledged normally."""
+    import threading
+    from engineio import packet as eio_packet
+    from vlib import drive as D
+    from vlib import refcodec as RR
+    rng = ctx.case_rng(10 ** 7 + k)
+    cause = rng.choice(['sdisc', 'cdisc'])
+    async_handlers = rng.random() < 0.5
+    ns = rng.choice(['/', '/a'])
+    d = D.SyncDrive(async_handlers=async_handlers)
+    entered, release = threading.Event(), threading.Event()
+    log = []
+
+    def disconnect(sid, reason):
+        log.append(('disconnect', sid, reason))
+        entered.set()
+        release.wait(10)
+
+    def ev(sid, tok):
+        log.append(('event', sid, tok))
+        return 'r%s' % tok
+    d.sio.on('disconnect', disconnect, namespace=ns)
+    d.sio.on('ev', ev, namespace=ns)
+    t = d.open()
+    t.connect(ns)
+    sid = t.sids[ns]
+    w = {'part': 'race_threaded', 'case_index': k, 'cause': cause,
+         'async_handlers': async_handlers, 'namespace': ns}
+
+    def feed(ptype, pid=None, data=None):
+        text, atts = RR.encode(ptype, ns, pid, data)
+        t.socket.receive(eio_packet.Packet(eio_packet.MESSAGE, text))
+    d.autojoin = False
+    try:
+        feed(RR.EVENT, 11, ['ev', 1])
+        d.join()
+        if cause == 'sdisc':
+            th = threading.Thread(target=lambda: d.sio.disconnect(
+                sid, namespace=ns), daemon=True)
+        else:
+            th = threading.Thread(target=lambda: feed(RR.DISCONNECT),
+                                  daemon=True)
+        th.start()
+        if not entered.wait(10):
+            raise RuntimeError('disconnect handler was not reached')
+        connected = d.sio.manager.is_connected(sid, ns)
+        feed(RR.EVENT, 12, ['ev', 2])
+        release.set()
+        th.join(10)
+        d.join()
+    finally:
+        release.set()
+    t.drain()
+    acks = {p['id']: p for p in t.packets if p['type'] == RR.ACK}
+    inv = [x for x in log if x[0] == 'event']
+    w.update(log=[list(x) for x in log], connected_at_feed=connected,
+             acks=sorted(acks), errors=d.errors())
+    ctx.count('racing_events_threaded')
+    if d.errors():
+        ctx.violation(None, 'event racing with a disconnect: exception '
+                      'escaped (%s)' % d.errors()[0]['exc'], w)
+    elif ('event', sid, 1) not in inv or 11 not in acks:
+        ctx.violation(None, 'event sent before the disconnect was not '
+                      'handled and acknowledged', w)
+    elif not connected and (('event', sid, 2) in inv or 12 in acks):
+        ctx.violation(None, 'event that arrived while its client\'s '
+                      'disconnect was in progress (client not connected) '
+                      'was %s' % ('handled' if ('event', sid, 2) in inv
+                                  else 'acknowledged'), w)
+    else:
+        ctx.case(('race_threaded', cause, async_handlers, ns, connected),
+                 {'part': 'race_threaded', 'cause': cause, 'log': w['log']})
+
+
+def run_races(ctx, share):
+    """Events racing with a disconnect in progress: asyncio server through
+    the interleaving explorer of C04 part (b) (scenarios that contain the
+    event actor), threaded server with a disconnect handler blocked in
+    another thread."""
+    from checks import c04_sched
+    t_end = ctx.time_left() - share
+    sp = [s for s in c04_sched.specs() if 'event' in s['actors']]
+    k = 0
+    while ctx.time_left() > t_end and not ctx.too_many_violations():
+        for _ in range(8):
+            race_threaded(ctx, k)
+            k += 1
+        spec = sp[(k // 8) % len(sp)]
+        rng = ctx.case_rng(2 * 10 ** 7 + k)
+        for _ in range(40):
+            c04_sched.explore(ctx, spec, 1, rng=rng)
+
+
 def run(ctx):
     ctx.rule = ('histories of EVENT/BINARY_EVENT packets (ids None/0/'
                 'colliding/huge, JSON+bytes arguments, bursts interleaved '
@@ -382,6 +480,9 @@ def run(ctx):
     ctx.require('handler_invocations_checked', 50)
     ctx.require('acks_checked', 30)
     ctx.require('order_checks', 5)
+    ctx.require('racing_events_threaded', 10)
+    ctx.require('racing_events_while_disconnecting', 10)
+    run_races(ctx, (ctx.budget or 30) * 0.2)
     k = 0
     while not ctx.out_of_time() and not ctx.too_many_violations():
         run_case(ctx, k)
@@ -390,4 +491,10 @@ def run(ctx):
 
 
 def replay(ctx, w):
-    run_case(ctx, w['witness']['case_index'])
+    wi = w['witness']
+    if wi.get('part') == 'race_threaded':
+        return race_threaded(ctx, wi['case_index'])
+    if wi.get('part') == 'sched':
+        from checks import c04_sched
+        return c04_sched.replay(ctx, w)
+    run_case(ctx, wi['case_index'])
